@@ -80,6 +80,21 @@ def cov_c09(st, tier):
     }
 
 
+def cov_c08(st, tier):
+    return {
+        "states": st["builds"] + st["builder_messages"], "transitions": 5 * (st["builds"] + st["builder_messages"]),
+        "traces_validated_against_impl": st["builds"] + st["builder_messages"],
+        "evaluations": st["builds"] + st["builder_messages"], "distinct_nontrivial": st["distinct_outcomes"],
+        "rule": "state = one (L, domain, codec, header offset, payload length, content) case or one client message builder invocation; transitions = the real calls chained per case: "
+                "build_hostname (or the client's send_* builder up to sendto), dns_encode, dns_decode, query_datalen, unpack_data. non-trivial = the payload does not fit and the builder truncates; "
+                "distinct = distinct (codec, header, L, domain length, truncated?, consumed) classes",
+        "truncating_cases": st["truncating_builds"], "builder_messages": st["builder_messages"], "grid_cells_L_x_domain": st["grid_cells"],
+        "bounds": {"L": "100..255 every value" if tier == "thorough" else "100..102, 127..129, 151..153, 253..255 and every 7th",
+                   "domain_lengths": "3..min(128, L-24) every value, two label shapes" if tier == "thorough" else "{3,4,5,31,63,64,65,100,max-1,max}, two label shapes",
+                   "payload": "1..capacity+4 every length for content 00, boundary lengths for ff and counter; plus 2048"},
+    }
+
+
 PROPS = {
     "C07": {
         "harness": "C07.c", "flavor": "asan", "images": (("s", "server"),), "engine": "E-C enumerators",
@@ -124,6 +139,15 @@ PROPS = {
         "level_text": "For every cell of {7 record types} x {5 downstream codecs} x {short, maximal query name}, every payload length in the tier's range and 3-5 contents, the server image's real write_dns() builds the answer and the client image's real read_dns_withq() decodes it; the result must be the payload, a proper prefix or nothing, and exactness must be monotone in the length. Complete enumeration of the stated grid.",
         "level_note": "Trusted: the harness comparison only (no model). Contents are five families, not all byte strings; the 4096-byte handshake buffer is paired only with the <= 2047-byte payloads the server can send during the handshake.",
         "technique": "exhaustive enumeration of a finite grid through the two real code paths (cross-image round trip)",
+        "assumptions": COMMON_ASSUME,
+    },
+    "C08": {
+        "harness": "C08.c", "flavor": "asan", "engine": "E-C enumerators",
+        "tiers": {"quick": {"budget_s": 120}, "thorough": {"budget_s": 1200}},
+        "coverage": cov_c08,
+        "level_text": "Exhaustive over the (L, domain length, codec, header offset) grid with every payload length up to just beyond capacity: the real build_hostname() output is checked by an independent strict name checker, and the reported byte count is compared with what the server-side path (real dns_encode -> dns_decode -> query_datalen -> unpack_data) extracts. The client's six real message builders are driven with hostname_maxlen = L and their datagrams, captured at sendto, go through the same checks.",
+        "level_note": "Trusted: the strict name checker and RFC 1035 parser in ref/. Payload contents are three families (00, ff, counter). Handshake messages may be truncated by a small L (the property allows a prefix); the check only requires a non-empty, unchanged prefix.",
+        "technique": "exhaustive enumeration of a configuration x input grid through the real builder and the real extraction path",
         "assumptions": COMMON_ASSUME,
     },
 }
